@@ -496,6 +496,10 @@ static int dfs(int maxpre, long maxsched, int shard, int nshards) {
 }
 
 /* ---------------------------------------------------------------- fork mode */
+static void after_free_hook(void) {
+    if (fk_mode && sched_active && me >= 0) maybe_park_l(K_IO, "after-free");
+}
+
 /* C16 fork arm: with libvheap.so preloaded, the number of live blocks allocated by libsnoopy.so (-1 without the monitor) */
 static long snoopy_live_now(void) {
     int (*snap)(char *, size_t) = (int (*)(char *, size_t)) dlsym(RTLD_DEFAULT, "vheap_snapshot");
@@ -577,6 +581,9 @@ static int fork_scenario(void) {
         /* C16 fork arm only: steady state of a single-threaded process after one complete call */
         do_call("WARMUPz", 0);
         heap_base = snoopy_live_now();
+        /* ... and one more kind of stop point: right after every free() the library issues */
+        void (**hook)(void) = (void (**)(void)) dlsym(RTLD_DEFAULT, "vheap_after_snoopy_free");
+        if (hook) *hook = after_free_hook;
     }
     for (long t = 0; t < NT; t++) {
         sem_init(&th[t].sem, 0, 0);
